@@ -4,7 +4,7 @@ HOOKS = {
     "guard": "--cfg geodesy_verif",
     "enable": "harness/.cargo/config.toml sets rustflags = [\"--cfg\", \"geodesy_verif\"]; every check runs `cargo build --offline` in /verif/harness, which rebuilds the path dependency /repo from its working tree with the hooks on",
     "baseline_off_cmd": "cd /repo && cargo test --workspace --no-fail-fast --offline",
-    "source_commits": ["bd23dc0", "94ad313"],
+    "source_commits": ["bd23dc0", "94ad313", "7c61f8d"],
     "add_only": True,
 }
 
